@@ -9,7 +9,7 @@
                       Generated import graphs are also run through the extracted model NV.Front.ImportGraph (nvref_c09 `imports`):
                       model verdict ok / cycle / missing vs the verdict class of the real tool.
 """
-import os, re, hashlib, shutil, tempfile
+import os, re, hashlib, shutil, tempfile, time
 from concurrent.futures import ThreadPoolExecutor
 import vlib, frontlib as fl
 
@@ -354,7 +354,13 @@ def run_tool(b, tool, root, main, timeout):
     """the real tool in directory `root` under a bounded stack; cc is replaced by `true` for nanoc (the C compiler is not the front end)"""
     env = dict(os.environ, NANO_CC='true', TMPDIR=root, **(SAN_ENV if b.variant == 'asan' else {}))
     cmd = ['prlimit', '--stack=%d:%d' % (STACK_KB * 1024, STACK_KB * 1024)] + TOOL_CMDS[tool](b, main)
-    rc, o, e = vlib.sh(cmd, timeout=timeout, cwd=root, env=env)
+    for attempt in range(6):
+        rc, o, e = vlib.sh(cmd, timeout=timeout, cwd=root, env=env)
+        # the binary is being re-linked by a concurrent build of another check (ETXTBSY / EACCES): not an answer of the tool
+        if rc in (126, 127) and 'prlimit: failed to execute' in e:
+            time.sleep(1.5)
+            continue
+        break
     return rc, e
 
 
@@ -468,8 +474,8 @@ def run_module_graphs(ck, ref):
             if sc.name == 'self' and v == 'plain' and rc is not None:
                 variant[tool] = 'guarded' if classify(rc, e)[0] == 'diag' and diag_kind(e) == 'cycle' else 'unguarded'
         for (sc, tool, v), rc, e in res:
-            if rc is None:
-                ck.note('module graph scenario %s not materialised (%s)' % (sc.name, e))
+            if rc is None or (rc in (126, 127) and 'prlimit: failed to execute' in e):
+                ck.note('module graph scenario %s: run not started (%s)' % (sc.name, e.strip()[:120]))
                 continue
             cls, detail = classify(rc, e)
             ck.count(('modules', sc.name, graph_text(sc.graph) if sc.name.startswith('rand') else '', tool, v), nontrivial=True)
@@ -577,6 +583,9 @@ def numeric_real_tool(ck, ncases, probe_verdicts):
             tag, src = ncases[k]
             if rc == -9:
                 k, rc, e = one(k)
+            if rc in (126, 127) and 'prlimit: failed to execute' in e:
+                ck.note('numeric positions: nano_virt could not be started for %s (%s)' % (tag, e.strip()[:100]))
+                continue
             cls, detail = classify(rc, e)
             ck.count(('numeric-tool', src), True)
             outc[cls] = outc.get(cls, 0) + 1
